@@ -52,7 +52,7 @@ def catalogue(obj, spec, rnd):
             v = rnd.choice([k for k in range(8) if k != m["layer"]])
             add("module.layer", base + ["layer"], lambda r, v=v: setattr(get_mod(r), "layer", v), v, m["layer"])
             v = rnd.randrange(5) + 32 * rnd.randrange(2) + 256 * rnd.randrange(8) + 65536 * rnd.randrange(256) + 16777216 * rnd.randrange(4)
-            add("module.visualization", base + ["vis"], lambda r, v=v: setattr(get_mod(r), "visualization", v), v, m["vis"])
+            add("module.visualization", base + ["vis"], lambda r, v=v: setattr(get_mod(r), "visualization", v), L(v), m["vis"])
         for f, attr in (("fin", "mod_finetune"), ("rel", "mod_relative_note"), ("mobank", "midi_out_bank"), ("moprog", "midi_out_program")):
             v = i32new(m[f])
             add("module." + f, base + [f], (lambda r, a=attr, v=v: setattr(get_mod(r), a, v)), v, m[f])
@@ -184,6 +184,20 @@ def catalogue(obj, spec, rnd):
                 add("payload.sample-field", pb + ["samples", si + 1, 1, "panning"], lambda r, si=si, v=v: setattr(get_mod(r).samples[si], "panning", v), v, s["panning"])
                 v = rnd.choice([x for x in (8000, 44100, 96000) if L(x) != s["rate"]])
                 add("payload.sample-field", pb + ["samples", si + 1, 1, "rate"], lambda r, si=si, v=v: setattr(get_mod(r).samples[si], "rate", v), L(v), s["rate"])
+            used = [si for si, s_ in enumerate(pl["samples"]) if s_]
+            free = [si for si, s_ in enumerate(pl["samples"]) if not s_]
+            if len(used) >= 2:          # emptying a slot that is not the last used one leaves a gap; the others stay where they are
+                si = rnd.choice(used[:-1])
+                add("payload.sample-slot-emptied", pb + ["samples", si + 1], lambda r, si=si: get_mod(r).samples.__setitem__(si, None), [], pl["samples"][si])
+            if free and not pl.get("is_legacy"):
+                si = rnd.choice(free)
+                def addsample(r, si=si):
+                    s_ = S.Sample()
+                    s_.data, s_.format, s_.channels, s_.rate, s_.volume = b"\x01\x02\x03\x04", S.Format.int8, S.Channels.mono, 22050, 33
+                    get_mod(r).samples[si] = s_
+                tmp = S.Sample()
+                tmp.data, tmp.format, tmp.channels, tmp.rate, tmp.volume = b"\x01\x02\x03\x04", S.Format.int8, S.Channels.mono, 22050, 33
+                add("payload.sample-slot-filled", pb + ["samples", si + 1], addsample, projection.sample(tmp), pl["samples"][si])
             i = rnd.randrange(119)
             v = rnd.choice([x for x in (0, 1, 2) if x != pl["note_samples"][i]])
             def setnm(r, i=i, v=v):
